@@ -8,8 +8,14 @@ Record edit := mkEdit { e_old : text; e_new : text; e_merging : bool }.
 (** stacks are kept top first *)
 Record ustate := mkU { u_buf : text; u_undo : list edit; u_redo : list edit }.
 
+(** how a command relates to insert sessions: a typed character (InsertChar, ReplaceChar) continues the open
+    record; c, o and O open one for the text typed after them; everything else, r included, stands alone *)
+Inductive ckind := KPlain | KOpens | KContinues.
+Definition continues (k : ckind) : bool := match k with KContinues => true | _ => false end.
+Definition sessiony (k : ckind) : bool := match k with KPlain => false | _ => true end.
+
 Inductive uop :=
-| OCmd (pre : option text) (after : text) (char_insert : bool)
+| OCmd (pre : option text) (after : text) (kind : ckind)
     (* a command that is not u / <c-r>: the text it leaves. [pre] is the text
        [handle_block_insert] left just before the command ran, when leaving a
        block insert copied the typed text to the other lines of the block *)
@@ -42,15 +48,18 @@ Definition amend (s : ustate) (pre : option text) : ustate :=
 
 (** [LineBuf::exec_cmd] as far as text and stacks are concerned: a command
     that is not u / <c-r> and leaves the text [after] *)
-Definition cmd_step (s : ustate) (after : text) (ci : bool) : ustate :=
-  let undo1 := if top_merging (u_undo s) && negb ci then stop_merge (u_undo s) else u_undo s in
+Definition cmd_step (s : ustate) (after : text) (k : ckind) : ustate :=
+  let was := top_merging (u_undo s) in
+  let undo1 := if was && negb (continues k) then stop_merge (u_undo s) else u_undo s in
   let undo2 := if text_eqb (u_buf s) after then undo1 else handle_edit undo1 (u_buf s) after in
-  let undo3 := if ci then start_merge undo2 else undo2 in
+  (* only a record made by this command, or one that was already open, takes the following characters *)
+  let own := Nat.ltb (length (u_undo s)) (length undo2) || (continues k && was) in
+  let undo3 := if sessiony k && own then start_merge undo2 else undo2 in
   mkU after undo3 [].                                  (* clear_redos *)
 
 Definition ustep (s : ustate) (o : uop) : ustate :=
   match o with
-  | OCmd pre after ci => cmd_step (amend s pre) after ci
+  | OCmd pre after k => cmd_step (amend s pre) after k
   | OUndo =>
     let undo1 := if top_merging (u_undo s) then stop_merge (u_undo s) else u_undo s in
     match undo1 with
